@@ -176,3 +176,18 @@ pub fn score(qr: &QRCode, qr_transpose: &QRCode) -> u32 {
 
     line_score + patt_score + col_score + dark_score + square_score
 }
+
+#[cfg(fast_qr_verif)]
+pub(crate) mod verif {
+    use crate::module::Module;
+    use crate::QRCode;
+    pub fn line(l: &[Module]) -> (u32, u32) {
+        super::line(l)
+    }
+    pub fn matrix_score_squares(qr: &QRCode) -> u32 {
+        super::matrix_score_squares(qr)
+    }
+    pub fn dark_module_score(qr: &QRCode) -> u32 {
+        super::dark_module_score(qr)
+    }
+}
